@@ -56,6 +56,10 @@ CLAIMED = {
              'same for the second call of 15 free functions (plan caches, random engine per thread). A finding is replayed by a native 4-thread stress on a plan of the same algorithm class.',
              note='Disjoint write sets + read-only sharing imply race freedom and sequential results under any schedule; store addresses are data-independent so one path covers all inputs; the memory model itself is not modelled.',
              tech='symbolic execution of LLVM IR with store tracing (write-set non-interference); z3 only for ground obligations; native multi-thread stress as replay'),
+ 'C14': dict(design='4/C14', text='hilbert(x) for every n in 3..32 (96 thorough) and hilbert(x, n) pad/truncate pairs: all samples symbolic, z3 (QF_LRA) certifies the code as a fixed matrix that must equal '
+             'IDFT.diag(1,2,..,2,[1],0,..,0).DFT (real part = x, negative-frequency bins zero) within half of 64*n*eps; HilbertFilter (custom and designed taps, three frames): the real part of every output is the '
+             'very input term delayed by M/2 (bit-exact); Tuner: certified linear, sample k multiplied by exp(2*pi*i*f*k/fs) for every k up to ~3*fs, integer and fractional f, across three calls.',
+             note='REAL arithmetic; sin/cos at concrete arguments are the real doubles; the 1e-3 quadrature accuracy of the designed filter over its pass-band is not decided.'),
 }
 ALL = [json.loads(l)['id'] for l in open(os.path.join(V, 'properties.jsonl'))]
 NA_REASON = {}
